@@ -64,6 +64,7 @@ KW_SIGS = [
     [['a', 'po', False], ['p', 'pk', True], ['args', 'vp', False], ['k', 'ko', True]],
     [['a', 'po', True], ['b', 'po', True], ['p', 'pk', True]],
     [['p', 'pk', True], ['args', 'vp', False], ['kw', 'vk', False]],
+    [['a', 'po', False], ['p', 'pk', True], ['kw', 'vk', False]],
 ]
 FN_NAMES = ['f', 'g', 'h']
 
@@ -174,7 +175,11 @@ class GraphGen:
       elif p[1] == 'ko' and (not p[2] or r.random() < 0.5):
         kwargs[p[0]] = self.child()
     if any(p[1] == 'vk' for p in sig) and r.random() < 0.5:
-      kwargs['extra'] = self.child()
+      # **kwargs entries, also ones named like the variadic parameters themselves
+      names = ['extra', 'extra', 'kw'] + (['args'] if has_vp else [])
+      # ... or like a positional-only parameter that is bound positionally (legal in Python)
+      names += [p[0] for i, p in enumerate(pos) if p[1] == 'po' and i < npos]
+      kwargs[r.choice(names)] = self.child(0.2)
     cfg = btype(fn, *args, **kwargs)
     if self.tags and r.random() < 0.5:
       keys = list(cfg.__arguments__.keys())
@@ -217,6 +222,13 @@ def gen_graph(r, size=10, **kw):
 
 # ----------------------------------------------------------------------------------------
 # atoms
+
+
+def safe_repr(x) -> str:
+  try:
+    return repr(x)
+  except Exception:
+    return f'<{type(x).__name__}>'
 
 
 def atom_token(x) -> str:
@@ -277,7 +289,7 @@ def pelem_proto(pe):
   if isinstance(pe, daglish.Index):
     return ['i', pe.index]
   if isinstance(pe, daglish.Key):
-    return ['k', atom_token(pe.key) if is_atom(pe.key) else repr(pe.key)]
+    return ['k', atom_token(pe.key) if is_atom(pe.key) else safe_repr(pe.key)]
   if isinstance(pe, daglish.Attr):
     return ['a', pe.name]
   raise TypeError(pe)
@@ -310,6 +322,34 @@ def kind_of(x):
   return 'opaque'
 
 
+def configured_args(cfg):
+  """The configured arguments of a Buildable in signature order, read directly from its
+  storage (independent of fdl.ordered_arguments): positional-only by index, named parameters by
+  name, *args by contiguous indices, then every other string key (a **kwargs entry)."""
+  import inspect
+  store = cfg.__arguments__
+  out = {}
+  K = inspect.Parameter
+  params = list(cfg.__signature_info__.parameters.values())
+  kw_capable = {p.name for p in params if p.kind in (K.POSITIONAL_OR_KEYWORD, K.KEYWORD_ONLY)}
+  for i, p in enumerate(params):
+    if p.kind == K.POSITIONAL_ONLY:
+      if i in store:
+        out[i] = store[i]
+    elif p.kind in (K.POSITIONAL_OR_KEYWORD, K.KEYWORD_ONLY):
+      if p.name in store:
+        out[p.name] = store[p.name]
+    elif p.kind == K.VAR_POSITIONAL:
+      j = i
+      while j in store:
+        out[j] = store[j]
+        j += 1
+  for k, v in store.items():
+    if isinstance(k, str) and k not in kw_capable:
+      out[k] = v
+  return out
+
+
 class Encoder:
   """Encodes a Python object graph as a topologically ordered heap. Independent of daglish's
   traversal machinery: children are read directly from the Python objects."""
@@ -323,13 +363,13 @@ class Encoder:
   def children(self, x, kind):
     if kind == 'cfg':
       out = []
-      for k, v in fdl.ordered_arguments(x).items():
+      for k, v in configured_args(x).items():
         out.append((['i', k] if isinstance(k, int) else ['a', k], v))
       return out
     if kind in ('list', 'tuple'):
       return [(['i', i], v) for i, v in enumerate(x)]
     if kind in ('dict', 'ddict'):
-      return [(['k', atom_token(k) if is_atom(k) else repr(k)], v) for k, v in x.items()]
+      return [(['k', atom_token(k) if is_atom(k) else safe_repr(k)], v) for k, v in x.items()]
     if kind == 'ntuple':
       return [(['a', n], v) for n, v in x._asdict().items()]
     if kind == 'custom':
@@ -423,7 +463,7 @@ def canon(root, *, order_dicts=False, with_tags=True):
     seen[id(x)] = n
     keep.append(x)
     if isinstance(x, fdl.Buildable):
-      items = list(fdl.ordered_arguments(x).items())
+      items = list(configured_args(x).items())
       out = ['cfg', n, type(x).__name__, callable_name(x.__fn_or_cls__),
              [[k, go(v)] for k, v in items]]
       if with_tags:
@@ -444,7 +484,7 @@ def canon(root, *, order_dicts=False, with_tags=True):
     if t is tuple:
       return ['tuple', n, [go(v) for v in x]]
     if t is dict or t is collections.defaultdict:
-      items = [[atom_token(k) if is_atom(k) else repr(k), go(v)] for k, v in x.items()]
+      items = [[atom_token(k) if is_atom(k) else safe_repr(k), go(v)] for k, v in x.items()]
       if order_dicts:
         items = sorted(items, key=lambda kv: kv[0])
       return [t.__name__, n, items]
@@ -510,7 +550,7 @@ def ref_build(root):
     keep.append(x)
     kind = kind_of(x)
     if kind == 'cfg':
-      oa = fdl.ordered_arguments(x)
+      oa = configured_args(x)
       built = {k: go(v) for k, v in oa.items()}
       sig = sig_of(x)
       pos = [p for p in sig if p[1] in ('po', 'pk')]
